@@ -22,10 +22,10 @@ package main
 
 import (
 	"fmt"
-	"os"
 	"go/ast"
 	"go/token"
 	"go/types"
+	"os"
 	"strings"
 
 	"golang.org/x/tools/go/cfg"
@@ -548,7 +548,149 @@ func c19IsSlicesInsert(fn *types.Func) bool {
 	return fn.Name() == "Insert" && fn.Pkg() != nil && (fn.Pkg().Path() == "slices" || strings.HasSuffix(fn.Pkg().Path(), "/slices"))
 }
 
-// c19RangeCopies: C19.j.
+// c19RangeCopies: C19.j. The rule is about the EFFECT of a loop over a slice of structs that edits fields of
+// its elements (shifting the children into view, re-flowing them from row 0): the edit must arrive in the
+// slice. An element can be reached
+//   - through a copy (the value variable of the range statement, or a local `e := C[k]`): the copy has to be
+//     stored back (`C[k] = e`) on every path to the next iteration;
+//   - in place (`C[k].f = ...`, or through `p := &C[k]`): nothing has to be stored back, but a later store of a
+//     (stale) copy over the same element before the next iteration would undo the edit.
+//
+// k is the key of the range statement or the counter of a three-clause loop.
+type c19ElemLoop struct {
+	fi   *FuncInfo
+	info *types.Info
+	loop ast.Stmt
+	body *ast.BlockStmt
+	coll ast.Expr              // collection of a range statement (nil for a three-clause loop)
+	keys map[types.Object]bool // index variables
+	val  types.Object          // range copy
+}
+
+const (
+	c19RefNone = iota
+	c19RefCopy
+	c19RefInPlace
+)
+
+func c19StructSlice(t types.Type) bool {
+	if t == nil {
+		return false
+	}
+	var el types.Type
+	switch u := t.Underlying().(type) {
+	case *types.Slice:
+		el = u.Elem()
+	case *types.Array:
+		el = u.Elem()
+	case *types.Pointer:
+		if a, ok := u.Elem().Underlying().(*types.Array); ok {
+			el = a.Elem()
+		}
+	}
+	if el == nil {
+		return false
+	}
+	_, ok := el.Underlying().(*types.Struct)
+	return ok
+}
+
+// elemIndex: e is C[k] with C a slice of structs and k an index variable of the loop (and C the ranged
+// collection when there is one).
+func (el *c19ElemLoop) elemIndex(e ast.Expr) (coll ast.Expr, ok bool) {
+	ie, isIdx := unparen(e).(*ast.IndexExpr)
+	if !isIdx || !c19StructSlice(el.info.TypeOf(ie.X)) {
+		return nil, false
+	}
+	id, isID := unparen(ie.Index).(*ast.Ident)
+	if !isID || !el.keys[el.info.ObjectOf(id)] {
+		return nil, false
+	}
+	if el.coll != nil && termOf(el.info, ie.X).ID != termOf(el.info, el.coll).ID {
+		return nil, false
+	}
+	return ie.X, true
+}
+
+// ref classifies the base of a selector chain: which element reference is it, if any. For a copy the
+// variable holding the copy and the collection it was taken from are returned.
+func (el *c19ElemLoop) ref(e ast.Expr) (kind int, copyVar types.Object, coll ast.Expr) {
+	e = unparen(e)
+	for {
+		switch t := e.(type) {
+		case *ast.SelectorExpr:
+			if _, isField := el.info.Selections[t]; !isField {
+				return c19RefNone, nil, nil
+			}
+			e = unparen(t.X)
+			continue
+		case *ast.StarExpr:
+			e = unparen(t.X)
+			continue
+		}
+		break
+	}
+	if c, ok := el.elemIndex(e); ok {
+		return c19RefInPlace, nil, c
+	}
+	id, ok := e.(*ast.Ident)
+	if !ok {
+		return c19RefNone, nil, nil
+	}
+	obj := el.info.ObjectOf(id)
+	if obj == nil {
+		return c19RefNone, nil, nil
+	}
+	if el.val != nil && obj == el.val {
+		return c19RefCopy, obj, el.coll
+	}
+	v, isVar := obj.(*types.Var)
+	if !isVar || v.IsField() {
+		return c19RefNone, nil, nil
+	}
+	def, stmt := c19LocalDef(el.fi, v)
+	if def == nil || stmt == nil || stmt.Pos() < el.body.Pos() || stmt.End() > el.body.End() {
+		return c19RefNone, nil, nil
+	}
+	def = unparen(def)
+	if u, isAddr := def.(*ast.UnaryExpr); isAddr && u.Op == token.AND {
+		if c, ok := el.elemIndex(u.X); ok {
+			return c19RefInPlace, nil, c
+		}
+		return c19RefNone, nil, nil
+	}
+	if c, ok := el.elemIndex(def); ok {
+		if _, isPtr := v.Type().Underlying().(*types.Pointer); !isPtr {
+			return c19RefCopy, obj, c
+		}
+	}
+	return c19RefNone, nil, nil
+}
+
+// isStoreOf: x is `C[k] = cv` (cv == nil: any copy of an element of this loop).
+func (el *c19ElemLoop) isStoreOf(x ast.Node, cv types.Object, coll ast.Expr) bool {
+	as, ok := x.(*ast.AssignStmt)
+	if !ok || len(as.Lhs) != 1 || len(as.Rhs) != 1 || as.Tok != token.ASSIGN {
+		return false
+	}
+	c, ok := el.elemIndex(as.Lhs[0])
+	if !ok {
+		return false
+	}
+	if coll != nil && termOf(el.info, c).ID != termOf(el.info, coll).ID {
+		return false
+	}
+	rid, ok := unparen(as.Rhs[0]).(*ast.Ident)
+	if !ok {
+		return false
+	}
+	if cv != nil {
+		return el.info.ObjectOf(rid) == cv
+	}
+	k, _, _ := el.ref(rid)
+	return k == c19RefCopy
+}
+
 func c19RangeCopies(c *Ctx, pkgName string) {
 	for _, fi := range c.P.FuncsIn(pkgName) {
 		if fi.Decl.Body == nil {
@@ -556,38 +698,79 @@ func c19RangeCopies(c *Ctx, pkgName string) {
 		}
 		info := fi.Pkg.TypesInfo
 		g := c.P.Graph(fi)
-		n := 0
 		inspectNoLit(fi.Decl.Body, func(m ast.Node) bool {
-			rs, ok := m.(*ast.RangeStmt)
-			if !ok || rs.Value == nil || rs.Key == nil {
-				return true
-			}
-			vid, ok := rs.Value.(*ast.Ident)
-			if !ok {
-				return true
-			}
-			vobj := info.ObjectOf(vid)
-			if vobj == nil {
-				return true
-			}
-			if _, isStruct := vobj.Type().Underlying().(*types.Struct); !isStruct {
-				return true
-			}
-			kid, _ := rs.Key.(*ast.Ident)
-			if kid == nil || kid.Name == "_" {
-				// edits through a copy with no index to store it back
-				kid = nil
-			}
-			// edits of the copy
-			var edits []ast.Node
-			inspectNoLit(rs.Body, func(x ast.Node) bool {
-				as, ok := x.(*ast.AssignStmt)
-				if !ok {
+			el := &c19ElemLoop{fi: fi, info: info, keys: map[types.Object]bool{}}
+			switch lp := m.(type) {
+			case *ast.RangeStmt:
+				if !c19StructSlice(info.TypeOf(lp.X)) {
 					return true
 				}
-				for _, lh := range as.Lhs {
-					if _, isSel := unparen(lh).(*ast.SelectorExpr); isSel && rootObj(info, lh) == vobj {
-						edits = append(edits, as)
+				el.loop, el.body, el.coll = lp, lp.Body, lp.X
+				if kid, ok := lp.Key.(*ast.Ident); ok && kid.Name != "_" {
+					if o := info.ObjectOf(kid); o != nil {
+						el.keys[o] = true
+					}
+				}
+				if vid, ok := lp.Value.(*ast.Ident); ok && vid.Name != "_" {
+					el.val = info.ObjectOf(vid)
+				}
+			case *ast.ForStmt:
+				if lp.Post == nil {
+					return true
+				}
+				el.loop, el.body = lp, lp.Body
+				for _, st := range []ast.Stmt{lp.Init, lp.Post} {
+					switch s := st.(type) {
+					case *ast.AssignStmt:
+						for _, lh := range s.Lhs {
+							if id, ok := lh.(*ast.Ident); ok {
+								if o := info.ObjectOf(id); o != nil {
+									el.keys[o] = true
+								}
+							}
+						}
+					case *ast.IncDecStmt:
+						if id, ok := s.X.(*ast.Ident); ok {
+							if o := info.ObjectOf(id); o != nil {
+								el.keys[o] = true
+							}
+						}
+					}
+				}
+				if len(el.keys) == 0 {
+					return true
+				}
+			default:
+				return true
+			}
+			// edits of fields of an element
+			type edit struct {
+				node ast.Node
+				lhs  ast.Expr
+				kind int
+				cv   types.Object
+				coll ast.Expr
+			}
+			var edits []edit
+			inspectNoLit(el.body, func(x ast.Node) bool {
+				var lhss []ast.Expr
+				switch st := x.(type) {
+				case *ast.AssignStmt:
+					if st.Tok == token.DEFINE {
+						return true
+					}
+					lhss = st.Lhs
+				case *ast.IncDecStmt:
+					lhss = []ast.Expr{st.X}
+				default:
+					return true
+				}
+				for _, lh := range lhss {
+					if _, isSel := unparen(lh).(*ast.SelectorExpr); !isSel {
+						continue
+					}
+					if k, cv, coll := el.ref(lh); k != c19RefNone {
+						edits = append(edits, edit{x, lh, k, cv, coll})
 					}
 				}
 				return true
@@ -595,62 +778,74 @@ func c19RangeCopies(c *Ctx, pkgName string) {
 			if len(edits) == 0 {
 				return true
 			}
-			n++
-			coll := types.ExprString(rs.X)
-			key := fi.Name + "/edit of " + vid.Name + " (copy of an element of " + c19CollName(info, rs.X) + ") is stored back"
-			if len(edits) > 1 {
-				key += ""
-			}
-			isStoreBack := func(x ast.Node) bool {
-				as, ok := x.(*ast.AssignStmt)
-				if !ok || len(as.Lhs) != 1 || len(as.Rhs) != 1 || kid == nil {
-					return false
-				}
-				ie, ok := unparen(as.Lhs[0]).(*ast.IndexExpr)
-				if !ok {
-					return false
-				}
-				if termOf(info, ie.X).ID != termOf(info, rs.X).ID {
-					return false
-				}
-				iid, ok := unparen(ie.Index).(*ast.Ident)
-				if !ok || info.ObjectOf(iid) != info.ObjectOf(kid) {
-					return false
-				}
-				rid, ok := unparen(as.Rhs[0]).(*ast.Ident)
-				return ok && info.ObjectOf(rid) == vobj
-			}
-			okAll := true
+			collExpr := edits[0].coll
+			var copyName string
 			for _, ed := range edits {
-				loc, found := g.Locate(ed)
+				if ed.kind == c19RefCopy && copyName == "" {
+					copyName = ed.cv.Name()
+				}
+			}
+			collStr := "the slice"
+			if collExpr != nil {
+				collStr = types.ExprString(collExpr)
+			}
+			key := fi.Name + "/edit of the elements of " + c19CollName(info, collExpr) + " (made in place) is stored back"
+			if copyName != "" {
+				key = fi.Name + "/edit of " + copyName + " (copy of an element of " + c19CollName(info, collExpr) + ") is stored back"
+			}
+			inBody := func(nd ast.Node) bool { return nd.Pos() >= el.body.Pos() && nd.End() <= el.body.End() }
+			okAll := true
+			why := ""
+			for _, ed := range edits {
+				ed := ed
+				loc, found := g.Locate(ed.node)
 				if !found {
 					okAll = false
+					why = "the edit " + c19Short(ed.node) + " was not found in the control-flow graph"
 					continue
 				}
-				if g.reachesNextIteration(loc, isStoreBack, rs) {
-					okAll = false
+				switch ed.kind {
+				case c19RefCopy:
+					if ed.coll == nil || len(el.keys) == 0 {
+						okAll = false
+						why = "the loop edits the copy " + ed.cv.Name() + " and has no index to store it back with"
+						continue
+					}
+					if g.reachesNextIteration(loc, func(x ast.Node) bool { return el.isStoreOf(x, ed.cv, ed.coll) }, el.loop) {
+						okAll = false
+						why = "the loop edits the range copy " + ed.cv.Name() + " and does not store it back into " + collStr + " on every path"
+					}
+				case c19RefInPlace:
+					clobbered := false
+					g.walk(Loc{loc.B, loc.Idx + 1}, func(l Loc, nd ast.Node) bool {
+						if !inBody(nd) {
+							return false
+						}
+						if containsNode(nd, func(x ast.Node) bool { return el.isStoreOf(x, nil, ed.coll) }) {
+							clobbered = true
+							return false
+						}
+						return true
+					}, nil)
+					if clobbered {
+						okAll = false
+						why = "the element edited in place (" + c19Short(ed.node) + ") is overwritten by a copy taken before the edit"
+					}
 				}
-				// leaving the loop (break / return) without the store also loses the edit
-				lost := false
-				g.walk(Loc{loc.B, loc.Idx + 1}, func(l Loc, nd ast.Node) bool {
-					if containsNode(nd, isStoreBack) {
-						return false
-					}
-					// left the loop body?
-					if nd.Pos() < rs.Pos() || nd.End() > rs.End() {
-						lost = true
-						return false
-					}
-					return true
-				}, func(b *cfg.Block) { lost = true })
-				_ = lost // leaving through the loop head is the normal exit of the last iteration, checked above
 			}
-			c.check(okAll, "C19.j", key, rs.Pos(), "every path from the edit to the next iteration stores "+vid.Name+" back into "+coll,
-				"the loop edits the range copy "+vid.Name+" and does not store it back into "+coll+" on every path: the shift / re-flow of the children has no effect (the selected item stays outside the viewport, or the re-flowed items keep their old rows)")
+			okWhy := "every path from the edit to the next iteration stores " + copyName + " back into " + collStr
+			if copyName == "" {
+				okWhy = "the elements of " + collStr + " are edited in place and no copy is stored over them afterwards"
+			}
+			if why == "" {
+				why = "the loop edits a copy of the element"
+			}
+			c.check(okAll, "C19.j", key, el.loop.Pos(), okWhy,
+				why+": the shift / re-flow of the children has no effect (the selected item stays outside the viewport, or the re-flowed items keep their old rows)")
 			// a re-flow: Origin.Row assigned from a running local that is advanced by the element's height
 			for _, ed := range edits {
-				as := ed.(*ast.AssignStmt)
-				if as.Tok != token.ASSIGN || len(as.Lhs) != 1 {
+				as, isAs := ed.node.(*ast.AssignStmt)
+				if !isAs || as.Tok != token.ASSIGN || len(as.Lhs) != 1 || len(as.Rhs) != 1 {
 					continue
 				}
 				se, ok := unparen(as.Lhs[0]).(*ast.SelectorExpr)
@@ -661,7 +856,6 @@ func c19RangeCopies(c *Ctx, pkgName string) {
 				if run == nil {
 					continue
 				}
-				n++
 				isAdvance := func(x ast.Node) bool {
 					st, ok := x.(*ast.AssignStmt)
 					if !ok || len(st.Lhs) != 1 || len(st.Rhs) != 1 {
@@ -673,7 +867,11 @@ func c19RangeCopies(c *Ctx, pkgName string) {
 					}
 					hasH := containsNode(st.Rhs[0], func(y ast.Node) bool {
 						s2, ok := y.(*ast.SelectorExpr)
-						return ok && s2.Sel.Name == "Height" && rootObj(info, s2) == vobj
+						if !ok || s2.Sel.Name != "Height" {
+							return false
+						}
+						k, _, _ := el.ref(s2)
+						return k != c19RefNone
 					})
 					if !hasH {
 						return false
@@ -687,14 +885,12 @@ func c19RangeCopies(c *Ctx, pkgName string) {
 					}
 					return false
 				}
-				loc, _ := g.Locate(ed)
-				okAdv := !g.reachesNextIteration(loc, isAdvance, rs)
+				loc, _ := g.Locate(ed.node)
+				okAdv := !g.reachesNextIteration(loc, isAdvance, el.loop)
 				// and the running row is not advanced before the assignment within the iteration
-				head, _ := g.Locate(rs.Body)
-				_ = head
 				before := false
-				for _, st := range rs.Body.List {
-					if st.Pos() >= ed.Pos() {
+				for _, st := range el.body.List {
+					if st.Pos() >= ed.node.Pos() {
 						break
 					}
 					if containsNode(st, isAdvance) {
@@ -707,7 +903,6 @@ func c19RangeCopies(c *Ctx, pkgName string) {
 			}
 			return true
 		})
-		_ = n
 	}
 }
 
